@@ -1,11 +1,24 @@
 from __future__ import annotations
 
+from typing import Any
+
 from pycoin.satoshi.flags import SIGHASH_FORKID
 
 from ..bitcoin.SolutionChecker import BitcoinSolutionChecker
 
 
 class BcashSolutionChecker(BitcoinSolutionChecker):
+    def _make_sighash_f(self, tx_in_idx: int) -> Any:
+        # The replay-protected digest (SIGHASH_FORKID, mandatory on Bitcoin Cash) signs
+        # the script code as it stands: unlike the legacy algorithm it does not remove
+        # the pushes of the signatures being checked (no FindAndDelete).
+        def sig_for_hash_type_f(hash_type: int, sig_blobs: list[bytes], vm: Any) -> int:
+            return self._signature_hash(
+                vm.script[vm.begin_code_hash :], tx_in_idx, hash_type
+            )
+
+        return sig_for_hash_type_f
+
     def _signature_hash(self, tx_out_script: bytes, unsigned_txs_out_idx: int, hash_type: int) -> int:  # type: ignore[override]
         """
         Return the canonical hash for a transaction. We need to
